@@ -198,9 +198,11 @@ RELABEL = {"C20/": "C26/intervention:", "C21/": "C26/intervention:", "C13/": "C2
 
 def tasks(tier):
     from contracts import svc as S
-    from contracts.acse_accept import CheckIdentityTask
+    from contracts.acse_accept import CheckIdentityTask, CheckExtendedTask, CheckAsyncOpsTask
+    # the four negotiation-time intervention handlers: an exception from any of them stays inside its call site
     return ([TriggerNotification(n) for n in (0, 1, 2, 3)] + [TriggerIntervention(), CallSites()]
-            + [S.WrapHandlerTask("C20/"), CheckIdentityTask("C13/")] + [S.SingleScpTask(w) for w in S.SINGLE])
+            + [S.WrapHandlerTask("C20/"), CheckIdentityTask("C13/"), CheckExtendedTask("common", "C13/"), CheckExtendedTask("extended", "C13/"),
+               CheckAsyncOpsTask("C13/")] + [S.SingleScpTask(w) for w in S.SINGLE])
 
 
 def replay(rec):
